@@ -3217,6 +3217,10 @@ class Value(WithArithmeticMethods, _protocols.ValueProtocol, _display.PrettyPrin
                 raise ValueError(
                     "Initializer value cannot have name set to None. Please pop() the value from initializers first to do so."
                 )
+            if value == "":
+                raise ValueError(
+                    "Initializer value cannot have name set to an empty string. Please pop() the value from initializers first to do so."
+                )
             graph = self._graph
             assert graph is not None
             if value in graph.initializers and graph.initializers[value] is not self:
